@@ -71,7 +71,7 @@ def make_cases(ctx, n):
     named = {}
     rep = fastavro.parse_schema({"type": "record", "name": "Rep", "fields": [{"name": "a", "type": "long"}, {"name": "s", "type": "string"}]}, named)
     for codec in K.CODECS:
-        for nrec, si in ([(3000, 1 << 40)] if ctx.quick() else [(3000, 1 << 40), (20000, 1 << 40), (9000, 64000), (1500, 16000)]):
+        for nrec, si in ([(3000, 1 << 40)] if ctx.quick() else [(3000, 1 << 40), (5000, 1 << 40), (4000, 64000), (1500, 16000)]):
             recs = [{"a": 0, "s": "aaaaaaaaaaaaaaaa"} for _ in range(nrec)]
             cases.append(dict(raw=named["Rep"], parsed=rep, named=named, records=recs, codec=codec, si=si, meta=None,
                               sync=bytes(range(16)), level=rng.choice([None, 9]), use_raw=False, sizes=[K.record_size(rep, r) for r in recs]))
